@@ -400,6 +400,10 @@ End Gen.
 
 (* ------------------------------------------------------------------ *)
 (* the domain of the soundness theorem: everything except the known findings *)
+(* the argument of Unpack[...] is a tuple type: Tuple[T, ...] or a fixed tuple (whose own shape ty_ok checks) *)
+Definition unpack_inner_ok (t: ty) : bool :=
+  match t with TList true _ => true | TTuple _ => true | _ => false end.
+
 Fixpoint ty_ok (fuel: nat) (E: env) (cur base: bool) (t: ty) {struct fuel} : bool :=
   match fuel with
   | O => false
@@ -408,7 +412,15 @@ Fixpoint ty_ok (fuel: nat) (E: env) (cur base: bool) (t: ty) {struct fuel} : boo
     | TEnum e => match find_enum (enums E) e with Some d => negb (e_flag d) | None => false end   (* KF schema-flag-combos *)
     | TList keep t' => (keep || Bool.eqb cur base) && ty_ok n E cur base t'      (* KF schema-nt-override-in-containers *)
     | TSet t' => Bool.eqb cur base && ty_ok n E cur base t'
-    | TTuple args => no_unpack args && forallb (fun a => ty_ok n E cur base (snd a)) args
+    | TTuple args =>
+        (* fixed tuples; at most one Unpack[...] per level (as typing requires), whose argument is Tuple[T, ...]
+           or again a fixed tuple of this kind (any nesting depth) *)
+        forallb (fun a => ty_ok n E cur base (snd a)) args &&
+        (no_unpack args ||
+         match find_unpack args with
+         | Some u => no_unpack (skipn (Sn u) args) &&
+                     match nth_error args u with Some (_, it) => unpack_inner_ok it | None => false end
+         | None => false end)
     | TDict kt vt => Bool.eqb cur base && str_wired n E kt && ty_ok n E cur base kt && ty_ok n E cur base vt   (* KF schema-nonstr-keys *)
     | TUnion ts => forallb (ty_ok n E cur base) ts
     | TData c => match find_cls (classes E) c with
